@@ -222,7 +222,8 @@ static void run_candidate(int idx, struct ev *e, int flags)
         dup2(err_m, 2);
         alarm((flags & F_LSAN) ? 30 : 10);
         dis = apply_event(e, &rc);
-        fflush(stdout);
+        /* no fflush() here: what the daemon leaves in its stdio buffer has NOT reached the server - a verdict that is only
+         * written out by a later event is late (the daemon's own iauth_send() flushes every line on the pinned tree) */
         split1 = lseek(1, 0, SEEK_CUR);
         if (e->kind != 'E' && !dis) {
             if (flags & F_DUMP) {
@@ -234,13 +235,11 @@ static void run_candidate(int idx, struct ev *e, int flags)
         if (e->kind != 'E' && !dis && (flags & F_STATS)) {
             static const char q[] = "-1 ? stats\n";
             drain_input(q, sizeof(q) - 1);
-            fflush(stdout);
             split2 = split3 = lseek(1, 0, SEEK_CUR);
         }
         if (e->kind != 'E' && !dis && (flags & F_CONFIG)) {
             static const char q[] = "-1 ? config\n";
             drain_input(q, sizeof(q) - 1);
-            fflush(stdout);
             split3 = lseek(1, 0, SEEK_CUR);
         }
         snprintf(line, sizeof(line), "RES %s %d %ld %ld %ld\n", dis ? "disabled" : "ok", rc, (long)split1, (long)split2, (long)split3);
@@ -286,7 +285,6 @@ static void do_expand(int nh, int nc, int flags)
         for (ii = 0; ii < nh; ++ii) {
             if (apply_event(&evs[ii], &rc)) { bad = ii; break; }
         }
-        fflush(stdout);
         alarm(0);
         {
             /* report the state reached by the replay, so that the orchestrator can assert determinism */
@@ -346,8 +344,7 @@ static void do_trace(int n, int flags)
                 return;
             }
             dis = apply_event(&evs[ii], &rc);
-            fflush(stdout);
-            split1 = lseek(1, 0, SEEK_CUR);
+            split1 = lseek(1, 0, SEEK_CUR);      /* no fflush(): see do_expand */
             if (!dis && (flags & F_DUMP)) {
                 xwrite(res_m, "DUMP\n", 5);
                 dump_to_fd(res_m);
